@@ -74,8 +74,11 @@ def run(ctx):
     from checks.recordloop import check_membership_params_materialised
     check_membership_params_materialised(ctx, 'C07.R3', rl)
     # element derived only from the name columns (all definitions)
+    # (a local in which the symbol is worked out before it is stored counts as the element)
+    el_names = {'self.element'} | {norm(s.value) for s in walk_no_nested(sp) if isinstance(s, ast.Assign)
+                                   and norm(s.targets[0]) == 'self.element' and isinstance(s.value, ast.Name)}
     el_defs = [s for s in walk_no_nested(sp) if isinstance(s, ast.Assign)
-               and norm(s.targets[0]) == 'self.element']
+               and norm(s.targets[0]) in el_names]
     ok = bool(el_defs)
     bad_guard = None
     for s in el_defs:
@@ -84,11 +87,14 @@ def run(ctx):
                 rng = subscript_range(sub)
                 if rng is None or columns_of_slice(*rng) != ['name']:
                     ok = False
-        if not ({n for n in names_in(s.value)} <= {line_p, 'self', 'string', 'format'}):
+        if not ({n for n in names_in(s.value)} <= {line_p, 'self', 'string', 'format'} | el_names):
             ok = False
         # ... and so does the decision which definition applies
         for e, _pol in facts_at(s, sp):
             for sub in ast.walk(e):
+                if isinstance(sub, ast.Name) and sub.id not in el_names | {line_p, 'self', 'string', 'len'}:
+                    ok = False
+                    bad_guard = norm(e)
                 if isinstance(sub, ast.Attribute) and norm(sub.value) == 'self' \
                         and sub.attr not in ('name', 'element'):
                     ok = False
